@@ -268,7 +268,9 @@ def _guard_unix_remote_some(facts, s):
     """(a) every UnixStream::new on the accept path passes a definite Some(..) as the remote address;
     (b) in UnixStream::peer_addr every fallible step (any call but Clone) sits behind remote == None."""
     from core import L_opt
-    news = [c for c in facts.call_sites_of("stream::unix::UnixStream::new") if "Accept for tokio::net::UnixListener" in c.fn.nkey or "UnixListener" in c.fn.nkey]
+    accept = [g for g in accept_impls(facts) if "UnixListener" in g.nkey]
+    fam = {g.key for a in accept for g in facts.family(a, depth=4)}
+    news = [c for c in facts.call_sites_of("stream::unix::UnixStream::new") if c.fn.key in fam or "UnixListener" in c.fn.nkey]
     if not news:
         return False, "no UnixStream::new site on the unix accept path"
     for c in news:
